@@ -37,14 +37,14 @@ func (c14) ID() string       { return "C14" }
 func (c14) NewCase() any     { return &C14Case{} }
 func (c14) Cases(c *Ctx) int { return c.Pick(1200, 30000) }
 
-var c14Ops = []string{"helper", "name", "log", "logf", "error", "errorf", "fail", "failed", "context", "context", "cleanup", "cleanup"}
+var c14Ops = []string{"helper", "name", "log", "logf", "error", "errorf", "error0", "errorf0", "fail", "failed", "context", "context", "cleanup", "cleanup"}
 
 func genOps(dt *drv.T, max int, quiet bool) []GOp {
 	n := drv.IntRange(0, max).Draw(dt, "nops")
 	ops := make([]GOp, n)
 	for i := range ops {
 		op := pick(dt, "op", c14Ops...)
-		if quiet && (op == "error" || op == "errorf" || op == "fail") {
+		if quiet && (op == "error" || op == "errorf" || op == "fail" || op == "error0" || op == "errorf0") {
 			op = "failed"
 		}
 		ops[i] = GOp{Op: op, Yield: chance(dt, "yield", 30)}
@@ -117,13 +117,17 @@ func (cs *C14Case) exec(t *rapid.T, iv *c14Inv, g int, ops []GOp) {
 			t.Log("log", g, i)
 		case "logf":
 			t.Logf("logf %d %d", g, i)
-		case "error", "errorf", "fail":
+		case "error", "errorf", "fail", "error0", "errorf0":
 			atomic.StoreInt32(&iv.signalled, 1)
 			switch op.Op {
 			case "error":
 				t.Error("error", g, i)
 			case "errorf":
 				t.Errorf("errorf %d %d", g, i)
+			case "error0":
+				t.Error() // no message: still a failure
+			case "errorf0":
+				t.Errorf("")
 			default:
 				t.Fail()
 			}
@@ -161,7 +165,7 @@ func (c14) Run(c *Ctx, csAny any) Outcome {
 	for _, g := range append(append([][]GOp{}, cs.Gs...), cs.Main) {
 		total += len(g)
 		for _, op := range g {
-			if op.Op == "error" || op.Op == "errorf" || op.Op == "fail" || op.Op == "cleanup" || op.Op == "context" {
+			if op.Op == "error" || op.Op == "errorf" || op.Op == "error0" || op.Op == "errorf0" || op.Op == "fail" || op.Op == "cleanup" || op.Op == "context" {
 				mutators++
 				break
 			}
